@@ -48,6 +48,10 @@ Mutants this was built against (scratch worktree; caught by the oracle with a co
   m6 git walk: conflict-helper test not applied to files
   h1 harmless: set comprehension for conflicts_related, inverted if/else with continue (clean)
   fix: ForbiddenControlFileError for named control paths in GitWorkingTree.smart_add (clean, mode `H`)
+  s1 seeded: _gather_dirs_to_add uses `path.startswith(prev_dir)` - needs two named sibling directories,
+     one name a string prefix of the other (doc/docs, lib/lib64, src/src-old); covered on every seed by
+     the pinned scenario + corpus/C11/prefix-sibling-named-dirs.json and by generated prefix families
+     (pd, pd2, pd-x, pdd ...) named in pairs in both orders and in triples
 """
 import itertools
 import os
@@ -65,8 +69,9 @@ RULE = ("case = (format, layout, named paths (<= 2, or the root), recurse); all 
         "are enumerated with recurse on and off, pairs are sampled; non-trivial = something becomes versioned and "
         "something unversioned stays unversioned; distinct by (format, layout with flags, names, recurse)")
 ASSUMPTIONS = [
-    "at most two named paths per call (with three or more, _gather_dirs_to_add's prev_dir test can scan a named "
-    "directory that lies inside another named directory a second time; the model scans it once)",
+    "at most two named paths per call, or three sibling directories (with three or more names of which one lies "
+    "inside another, _gather_dirs_to_add's prev_dir test can scan the inner directory a second time; the model "
+    "scans it once)",
     "default AddAction (skip_file never skips); versioned entries have the same kind on disk as in the inventory",
     "tree.is_ignored is a parameter (C48) read from the real tree; ControlDirFormat.find_format(dir) succeeds iff "
     "dir holds a recognised .bzr/.git entry (as checked by C46 on the same layouts)",
